@@ -161,6 +161,61 @@ func runC39(c *Ctx) {
 		pPh, ok1 := call.Call.Args[1].(*ssa.Phi)
 		kPh, ok2 := call.Call.Args[2].(*ssa.Phi)
 		if !ok1 || !ok2 || pPh.Block() != kPh.Block() {
+			// the pair may be chosen by a helper returning (period, key): every return of it is the left or the right
+			// pair and is reachable only through the matching half-range edge of that helper
+			e1, isE1 := call.Call.Args[1].(*ssa.Extract)
+			e2, isE2 := call.Call.Args[2].(*ssa.Extract)
+			if isE1 && isE2 && e1.Tuple == e2.Tuple {
+				if hc, isCall := e1.Tuple.(*ssa.Call); isCall {
+					if h := samePkgHelper(fn, &hc.Call); h != nil {
+						sub := func(t string) string { return substParamsTrace(t, hc.Call.Args) }
+						var hGE, hLT []edge
+						for _, b := range h.Blocks {
+							for sx := 0; sx < 2 && sx < len(b.Succs); sx++ {
+								r := c.c39EdgeRel(b, sx)
+								if r == nil {
+									continue
+								}
+								l, op, rr := sub(r.lhs), r.op, sub(r.rhs)
+								if isPow(l, true) {
+									l, rr, op = rr, l, swapOpStr(op)
+								}
+								if l != "p1" || !isPow(rr, true) {
+									continue
+								}
+								switch op {
+								case ">=":
+									hGE = append(hGE, edge{b, sx})
+								case "<":
+									hLT = append(hLT, edge{b, sx})
+								}
+							}
+						}
+						reachNoGE, _ := reachAvoiding(h, cutSet(hGE))
+						reachNoLT, _ := reachAvoiding(h, cutSet(hLT))
+						okSel, nRet := true, 0
+						for _, b := range h.Blocks {
+							r, isR := b.Instrs[len(b.Instrs)-1].(*ssa.Return)
+							if !isR || len(r.Results) <= e1.Index || len(r.Results) <= e2.Index {
+								continue
+							}
+							nRet++
+							pt, kt := sub(trace(returnedValue(r, e1.Index))), sub(trace(returnedValue(r, e2.Index)))
+							right := pt == "(p1 - (1 << (Depth<p0 - 1)))" && kt == "RightHandSidePublicKey<p0"
+							left := pt == "p1" && kt == "LeftHandSidePublicKey<p0"
+							switch {
+							case right && !reachNoGE[b] && len(hGE) > 0:
+							case left && !reachNoLT[b] && len(hLT) > 0:
+							default:
+								okSel = false
+							}
+						}
+						c.Check(okSel && nRet > 0, "kes-subtree", ck, call.Pos(), "right subtree ⇔ period ≥ 2^(Depth−1), with period − 2^(Depth−1) and the right key; else the left key and the same period (chosen in "+h.Name()+")", "the sub-signature's period/key are not selected as: period ≥ 2^(Depth−1) ⇒ (period − 2^(Depth−1), right key), else (period, left key)")
+						c.Check(trace(call.Call.Args[3]) == "p3", "kes-subtree", ck+":message", call.Pos(), "the same message is verified below", "the sub-signature is verified against "+shortArg(trace(call.Call.Args[3]))+" instead of the message")
+						continue
+					}
+				}
+			}
 			c.Bad("kes-subtree", ck, call.Pos(), "the sub-signature is not verified with a (period, key) pair selected together")
 			continue
 		}
